@@ -274,6 +274,10 @@ func genOrig(rng *core.Rand, p string) string {
 		return ""
 	case 3:
 		return "/prefix" + p
+	case 4:
+		// what the canonical redirect is computed from: open-redirect shapes, bytes url.Parse
+		// rejects or treats specially, non-ASCII
+		return rng.Pick([]string{"//evil.example", "/", "///x//", "/%zz", "/a#b", "/a?b", "/a\x01b", "/\xc3\xa9", "/a%2fb", "/\\evil.example", "/a#%zz", "/x:y", "/%"}) + p
 	}
 	return p
 }
@@ -317,6 +321,10 @@ func genServe(rng *core.Rand) string {
 	orig := genOrig(rng, p)
 	line := fmt.Sprintf("serve %s %s %s %s %s %s %s %s", core.Hex(w.cwd), core.Hex(w.rootCfg), showList(hide), showList(idx),
 		bits(rng.Chance(1, 2), rng.Chance(1, 3), rng.Chance(3, 4), rng.Chance(1, 4), rng.Chance(1, 4), rng.Chance(1, 5)), core.Hex(p), core.Hex(orig), w.treeField())
+	if !sidecars && rng.Chance(1, 3) {
+		line += " 000 . " + core.Hex(rng.Pick(queries))
+		return line
+	}
 	if sidecars {
 		// precompressed sidecars: which modules are configured, what the client accepts
 		var acc []string
@@ -324,6 +332,9 @@ func genServe(rng *core.Rand) string {
 			acc = append(acc, rng.Pick([]string{"gzip", "gzip", "br", "zstd", "identity", "deflate", "*"}))
 		}
 		line += " " + bits(rng.Chance(2, 3), rng.Chance(1, 2), rng.Chance(1, 2)) + " " + showList(acc)
+		if rng.Chance(1, 4) {
+			line += " " + core.Hex(rng.Pick(queries))
+		}
 	}
 	return line
 }
@@ -373,6 +384,8 @@ func genPair(rng *core.Rand) string {
 	}
 	return "pair " + fault + " " + fields(wa, hideA, pa) + " // " + fields(wb, hideB, pb)
 }
+
+var queries = []string{"x=1", "a=b&c=%zz", "//evil.example/", "?", "q=/../", "%2f%2fevil", "nex=//evil.example", "a?b", "/", "x=%", "a=1/", "", "sor=name&order=desc"}
 
 var tryPool = []tryFile{
 	{"", true, ""}, {"", true, ""}, {"", true, ""}, {"", true, "/"}, {"", true, ".html"}, {"", true, "/index.html"},
